@@ -38,6 +38,15 @@ func collect(e *Env, family string, n int, draw func(t *rapid.T) PkgSpec) []PkgS
 	var out []PkgSpec
 	prop := func(t *rapid.T) {
 		s := draw(t)
+		// (C18 draws its documents in pairs and plants its own twins)
+		if family != "C18" && s.Doc != nil {
+			if n := specgen.AddCaseTwins(t, s.Doc); n > 0 {
+				if s.Meta == nil {
+					s.Meta = map[string]any{}
+				}
+				s.Meta["case_twin_components"] = n
+			}
+		}
 		out = append(out, s)
 	}
 	rt.Check("collect-"+family, rt.Seed(e.Seed, rt.SeedStr(family)), n, time.Second, prop)
